@@ -618,6 +618,16 @@ func (b *BlockWise[C]) getValidUntil(sentRequest *pool.Message) time.Time {
 	return validUntil
 }
 
+// requestsFollowingBlock2 returns true if r asks for a block of the response other than the first one.
+func requestsFollowingBlock2(r *pool.Message) bool {
+	block, err := r.GetOptionUint32(message.Block2)
+	if err != nil {
+		return false
+	}
+	_, num, _, err := DecodeBlockOption(block)
+	return err == nil && num > 0
+}
+
 func getSzx(szx, maxSzx SZX) SZX {
 	if szx > maxSzx {
 		return maxSzx
@@ -752,6 +762,11 @@ func (b *BlockWise[C]) processReceivedMessage(w *responsewriter.ResponseWriter[C
 	block, err := r.GetOptionUint32(blockType)
 	if err != nil {
 		if errors.Is(err, message.ErrOptionNotFound) {
+			if blockType == message.Block1 && requestsFollowingBlock2(r) {
+				// POST/PUT that only asks for a further block of a response which is not held (any more):
+				// the handler would execute the request once again, with an empty body.
+				return errors.New("cannot continue response: response is not cached")
+			}
 			next(w, r)
 			return nil
 		}
